@@ -45,6 +45,8 @@ def _worker(args):
                 break
     finally:
         drv.close()
+        from . import real
+        real.cleanup_scripts()
     return {
         'violations': rep.violations, 'known': rep.known, 'samples': rep.samples, 'counters': rep.counters,
         'nontrivial': list(rep.nontrivial), 'evaluations': rep.evaluations,
